@@ -137,6 +137,35 @@ def _outcome(fn):
         return ("raise", exc)
 
 
+def _atomgrid(g, rg, c, rotate):
+    """The ways a caller gets an atomic grid: one degree for all shells, or per-shell degrees (fewer angular points near
+    the nucleus) given as a Python list, as an ndarray, as sizes, as unsupported degrees that are matched up, or through
+    from_pruned.  Every shell keeps degree >= g['deg'], so the expected accuracy is that of the uniform grid."""
+    from grid.atomgrid import AtomGrid
+
+    how = g.get("ctor", "uniform")
+    lo, hi, k = g["deg"], g.get("deg_hi", g["deg"]), g.get("n_inner", 0)
+    n = g["nr"]
+    if how == "uniform":
+        return AtomGrid(rg, degrees=[lo], center=c, rotate=rotate)
+    if how == "list":
+        return AtomGrid(rg, degrees=[lo] * k + [hi] * (n - k), center=c, rotate=rotate)
+    if how == "array":
+        return AtomGrid(rg, degrees=np.array([lo] * k + [hi] * (n - k)), center=c, rotate=rotate)
+    if how == "matched":
+        # unsupported degrees: the library moves each up to the next tabulated one (2 -> 3, 4 -> 5, 6 -> 7)
+        return AtomGrid(rg, degrees=np.array([max(lo - 1, 2)] * k + [hi - 1] * (n - k)), center=c, rotate=rotate)
+    if how == "sizes":
+        from grid.angular import AngularGrid
+
+        sz = {d: AngularGrid(degree=d).size for d in (lo, hi)}
+        return AtomGrid(rg, sizes=[sz[lo]] * k + [sz[hi]] * (n - k), center=c, rotate=rotate)
+    if how == "pruned":
+        rb = float(rg.points[max(k, 1)]) * 0.999
+        return AtomGrid.from_pruned(rg, 1.0, r_sectors=[rb], d_sectors=[lo, hi], center=c, rotate=rotate)
+    raise ValueError(how)
+
+
 def _setup(ctx, state):
     """The shared grid object of the run (built once, reused by every solve: lazy basis, transform)."""
     from grid.atomgrid import AtomGrid
@@ -148,9 +177,9 @@ def _setup(ctx, state):
     rule = GaussLegendre if g["rule"] == "gl" else GaussChebyshev
     rg = tf.transform_1d_grid(rule(g["nr"]))
     c = np.array(g["center"], dtype=float)
-    state["grid"] = AtomGrid(rg, degrees=[g["deg"]], center=c, rotate=g["rotate"])
+    state["grid"] = _atomgrid(g, rg, c, g["rotate"])
     # a second grid object of the same size but another rotation: solves alternate between the two
-    state["grid_b"] = AtomGrid(rg, degrees=[g["deg"]], center=c, rotate=g["rotate"] + 17)
+    state["grid_b"] = _atomgrid(g, rg, c, g["rotate"] + 17)
     if g.get("as_molgrid"):
         # the same atomic grids wrapped as one-atom molecular grids (store=True): the solvers' MolGrid path
         from grid.becke import BeckeWeights
@@ -592,6 +621,12 @@ class PoissonSeamEngine:
             opts = {"boundary_scale": rng.choice([0.0, 0.0, 0.5, 2.0]), "remove_large_pts": rng.choice([20.0, 30.0])}
             grid["far_inside"] = True
         grid["opts"] = opts
+        if rng.random() < 0.45:
+            grid["ctor"] = rng.choice(["list", "list", "array", "matched", "sizes", "pruned"])
+            grid["deg_hi"] = rng.choice([5, 5, 7]) if grid["deg"] <= 4 else 7
+            if grid["ctor"] == "matched":
+                grid["deg"] = 3 if grid["deg"] <= 3 else 5  # (lo - 1 must be matched back to lo)
+            grid["n_inner"] = rng.choice([grid["nr"] // 3, grid["nr"] // 2, 5, grid["nr"] - 4])
         grid["as_molgrid"] = rng.random() < 0.25
         ri = rng.choice([[500.0, 1e-3], [1000.0, 1e-4], [300.0, 1e-3]])
         grid["r_interval"] = [ri[0], max(ri[1], 2 * grid["rmin"])]  # must lie inside the transform's domain [rmin, inf)
